@@ -8,7 +8,7 @@
 From Crusta Require Import Model.Dynamic Spec.SemFacts Proofs.ProgLaws Proofs.EncBase Proofs.SolverBasics.
 From Crusta Require Import Proofs.GroundedProofs Proofs.TopMax.
 From Crusta Require Import Proofs.StoreBase Proofs.StoreProofs Proofs.DynDefs Proofs.DynBase Proofs.DynProofs
-  Proofs.DynSafe Proofs.DynAttDefs Proofs.DynAttTables Proofs.DynAttEnc.
+  Proofs.DynSafe Proofs.DynAttDefs Proofs.DynAttTables Proofs.DynAttSafe Proofs.DynAttEnc.
 From Coq Require Import Lia ZifyBool.
 Open Scope prog_scope.
 
@@ -371,6 +371,20 @@ Proof.
     intros s1 Hc1 Hn1. rewrite wp_ret. cbn [aenc_with a_sem a_n]. rewrite Es, Hc1.
     unfold att_cnf, att_st_cnf. rewrite cls_reserve, cls_new. reflexivity.
   - apply wpT_panic.
+Qed.
+
+Lemma att_update_encoding_session (af : fw) e s e' s' :
+  a_need e = true -> att_update_encoding L af e s = Done e' s' ->
+  rev (rclauses (sess s')) = att_cnf (a_sem e') (a_n e') /\ a_need e' = false /\
+  a_n e' = n_arguments L af * a_num e / a_den e.
+Proof.
+  intros Hn E. split; [exact (wpT_done _ _ _ _ _ (att_update_encoding_cls af e s Hn) E)|].
+  revert E. unfold att_update_encoding. rewrite Hn. cbn [negb]. unfold bind, new_solver, reserve, ret.
+  destruct (a_sem e); try discriminate.
+  - destruct (Nat.ltb _ _); [discriminate|]. destruct (fold_m _ _ _ _); try discriminate.
+    destruct (fold_m _ _ _ _); try discriminate. intros E. injection E as <- _. auto.
+  - destruct (Nat.ltb _ _); [discriminate|]. destruct (fold_m _ _ _ _); try discriminate.
+    intros E. injection E as <- _. auto.
 Qed.
 
 (* ================================================================ Part B *)
@@ -1210,6 +1224,44 @@ Proof.
   intros Hvalid Hr Hk Hl Hq. pose proof (areach_reach _ _ _ _ _ Hr) as Hreach.
   exact (dyn_query_answer oracle k s ps os thr fuel q cert l id s' a ps' Hvalid Hk (reach_between k s os Hreach Hk)
            (qpost_areach oracle k s ps os Hvalid Hr Hk) Hl Hq).
+Qed.
+
+(* with an admissible factor: a supported query on an argument of the current framework never panics,
+   and whenever it returns, its answer is the one the semantics dictate *)
+Theorem att_query_total oracle k s ps os thr fuel q cert l id :
+  valid_oracle oracle -> areach oracle k s ps os -> att_kind k -> factor_ok k -> att_supported k q ->
+  get_argument (run_ops fresh os) l = Some id ->
+  match dyn_query oracle L leqb thr fuel s q cert l ps with
+  | Done (s', a) ps' =>
+      acc_spec (kind_spec_sem k) (query_pol q) cert (af_of L (run_ops fresh os)) [id] a /\
+      areach oracle k s' ps' os
+  | Panic _ => False
+  | _ => True
+  end.
+Proof.
+  intros Hvalid Hr Hk Hf Hs Hl. pose proof (areach_reach _ _ _ _ _ Hr) as Hreach.
+  pose proof (att_query_never_panics L leqb leqb_spec k s os oracle thr fuel q cert l id ps Hreach Hk Hf Hs Hl) as Hnp.
+  destruct (dyn_query oracle L leqb thr fuel s q cert l ps) as [[s' a] ps'|ps'|ps'|ps'] eqn:E; auto.
+  split; [eapply att_query_correct; eassumption|eapply areach_query; eassumption].
+Qed.
+
+(* earlier queries, cached results, retired slots and the SAT solver's choices never influence a
+   status: two runs (any two valid oracles, histories, caches, certificate flags) that ask the same
+   kind of question about the same argument of the same framework report the same status *)
+Theorem att_status_history_independent o1 o2 k s1 s2 ps1 ps2 os1 os2 thr1 thr2 fuel1 fuel2 q c1 c2 l1 l2 id
+        s1' s2' b1 b2 x1 x2 ps1' ps2' :
+  valid_oracle o1 -> valid_oracle o2 -> att_kind k ->
+  areach o1 k s1 ps1 os1 -> areach o2 k s2 ps2 os2 ->
+  af_of L (run_ops fresh os1) = af_of L (run_ops fresh os2) ->
+  get_argument (run_ops fresh os1) l1 = Some id -> get_argument (run_ops fresh os2) l2 = Some id ->
+  dyn_query o1 L leqb thr1 fuel1 s1 q c1 l1 ps1 = Done (s1', (b1, x1)) ps1' ->
+  dyn_query o2 L leqb thr2 fuel2 s2 q c2 l2 ps2 = Done (s2', (b2, x2)) ps2' ->
+  b1 = b2.
+Proof.
+  intros V1 V2 Hk R1 R2 HF G1 G2 Q1 Q2.
+  destruct (att_query_correct _ _ _ _ _ _ _ _ _ _ _ _ _ _ V1 R1 Hk G1 Q1) as [A1 _].
+  destruct (att_query_correct _ _ _ _ _ _ _ _ _ _ _ _ _ _ V2 R2 Hk G2 Q2) as [A2 _].
+  cbn [fst] in A1, A2. rewrite HF in A1. apply Bool.eq_iff_eq_true. rewrite A1, A2. reflexivity.
 Qed.
 
 End Fun.
